@@ -15,8 +15,6 @@
 package redis
 
 import (
-	"strings"
-
 	"github.com/cybergarage/go-redis/redis/proto"
 )
 
@@ -30,7 +28,7 @@ func (server *Server) executeCommand(conn *Conn, cmd string, args Arguments) (*M
 		return NewErrorNotSupportedMessage(cmd), nil
 	}
 
-	upperCmd := strings.ToUpper(cmd)
+	upperCmd := toUpperASCII(cmd)
 	cmdExecutor, ok := server.commandExecutors[upperCmd]
 	if !ok {
 		return NewErrorNotSupportedMessage(cmd), nil
